@@ -86,7 +86,7 @@ def answer (w : World) (q : Q) (path : String) (args : List String) : Except Str
   | "prepared" | "prepared_mut" => .ok s!"len={w.preparedLen q} items={showPairs (w.queryIter q)}"
   | "view" | "view_mut" | "prepared_view" =>
     .ok (s!"items={showPairs (w.queryIter q)} g=" ++ showList (fun e => showOptItem (w.viewGet q e)) hs)
-  | "batched" =>
+  | "batched" | "mut_batched" =>
     match (field args "n").bind String.toNat? with
     | some n => .ok ("batches=[" ++ ";".intercalate ((w.queryBatched q n).map showPairs) ++ "]")
     | none => .error "batched needs n"
@@ -151,7 +151,7 @@ def specCheck (s : Spec.SpecW) (q : Q) (path : String) (args : List String) (rhs
     if field toks "items" != some (showPairs want) then .error s!"view iteration must yield exactly the matching entities once: spec={showPairs want}"
     else if field toks "g" != some g then .error s!"view random access differs from the abstract map: spec g={g}"
     else .ok ()
-  | "batched" =>
+  | "batched" | "mut_batched" =>
     match (field args "n").bind String.toNat?, field toks "batches" with
     | some n, some b =>
       -- batches are `[..];[..]`: every batch non-empty and at most n long; their union is the matching set
